@@ -151,6 +151,11 @@ def run(tier):
         # (an input buffer that has to be EXPANDED during the burst is C19's and C05's subject: the recorded reorder race ExpansionReordersRows
         #  would show up here as a batch of other rows)
         scen.append(sc)
+    # a batch abandoned because user code panicked (a scalar function on one row, or a user aggregate's Result) leaves nothing behind:
+    # the next batches - of the same key and of other keys - hold exactly their own N rows
+    import C03
+    for i in range(40 if quick else 1200):
+        scen.append(C03.poison_query(rng, rng.choice([2, 2, 3])))
     seqfam.run_scenarios(res, scen, "TraceBatch", tag="batch", relayout_p=0.3, retype_p=0.3, rename_p=0.3)
     seqfam.run_pinned(res, "TraceBatch")
     res.cov["distinct_nontrivial"] = len({json.dumps(s["rows"], sort_keys=True) + s["sql"] for s in scen if len(s["rows"]) > 1})
